@@ -472,6 +472,7 @@ def run_op(binp, d, pr, reps, real_reps, render_):
 
 def run(ctx):
     ctx.prove(["Props/C18.vo", "Run/eval_C18.vo"], extra_props=["Compose_C18_imports"])   # + the three transcriptions of setImports (Gen, Dupes, ImportTag) agree
+    import extractlib; extractlib.fn_tie(ctx, ['TargetName/Gen', 'Functions.Less', 'Imports.Less'])   # pure functions translated from the current source, re-proved equal to the models' (tools/notes/Translator.md)
     ctx.trusted_base += [
         "harness/unitrun op primary (in-process parse.PrimaryPackage + the sort.Sort calls copied from mage/main.go + mage.GenerateMainfile; `go list` answered from a table filled by the real go command after the first repetitions)",
         "checks/c18.py (project generator/renderer, reader of mage_output_file.go, Coq printer, oracle)",
